@@ -402,10 +402,12 @@ class ColorVisuals(Visuals):
         """
         kwargs = {}
         if self.defined:
-            if self.face_colors is not None:
+            # `face_colors` and `vertex_colors` are both always available
+            # as one is computed from the other: only pass the kind that
+            # is actually stored or face colors become averaged vertex colors
+            if self.kind == "face":
                 kwargs.update(face_colors=self.face_colors[face_index])
-
-            if self.vertex_colors is not None:
+            elif self.vertex_colors is not None:
                 indices = np.unique(self.mesh.faces[face_index].flatten())
                 vertex_colors = self.vertex_colors[indices]
                 kwargs.update(vertex_colors=vertex_colors)
